@@ -38,8 +38,9 @@ fn worker_main(cfg: &Cfg, mut w: Worker) -> ! {
             corpus::for_each_grammar(&slices, &mut w, &mut stats, |p, st| c01::check_grammar(p, &known, st));
         }
         "C04" => {
-            // the corpus C01 uses, one scale step down (distinct trees are checked once)
-            let slices = corpus::standard(cfg.quick(), scale - 1);
+            // the corpus C01 uses, one scale step down (distinct trees are checked once); in the quick
+            // tier the optimizer-redex slice on one plane + axis of the frame cube (as for C15)
+            let slices = corpus::standard(cfg.quick(), if cfg.quick() { scale - 2 } else { scale - 1 });
             let mut seen = std::collections::HashSet::new();
             corpus::for_each_grammar(&slices, &mut w, &mut stats, |p, st| c04::check_grammar(p, &known, st, &mut seen));
             stats.add("distinct_parse_trees", seen.len() as u64);
